@@ -261,3 +261,14 @@ func VerifC18_RoundTripAllSigils() {
 	zzverif.Assert(formatter.CompactSource(formatter.ExpandSource(src)) == src, "all-sigils text round trip differs")
 	zzverif.Reach("allsigils")
 }
+
+// string literals with symbolic content (escapes, quotes of the other style,
+// statement symbols, a backslash before the closing quote) followed by
+// statements that need substitution
+func VerifC18_RoundTripStringContent() {
+	q := []string{"\"", "'"}[zzverif.Choice("quote", 2)]
+	content := zzverif.StringFrom("content", 3, "a\\\"'>$ #")
+	src := "@ GET /x {\n  $ s = " + q + content + q + "\n  $ t = " + q + ">" + q + "\n  > s\n}\n"
+	zzRoundTrip("string-content", src, "other")
+	zzverif.Reach("strcontent")
+}
